@@ -23,6 +23,7 @@ func checkC18(c *chk.Ctx) {
 		"R18b a shard's hash range is only written when the shard is created (or cloned)",
 		"R18c producers map Min->MinHashInclusive and Max->MaxHashInclusive, the client maps them to MinInclusive/MaxInclusive, and both client predicates (membership, overlap) agree with the inclusive-range truth table for every ordering of their operands; every non-deleting shard is published",
 		"R18d the only routing hash is the client strategy's xxhash3-32, and both producers advertise that router",
+		"R18i when the client learns a new shard it evicts every known shard that overlaps it: the scan over the known shards is only left when it is exhausted",
 		"R18h a compare-and-set of the cluster status writes a status computed from the snapshot whose version it presents (shared with C05): the id generator is never rolled back by a stale copy",
 		"R18g a cluster status built from an existing one (a literal that copies any field of another status) also copies its shard id generator: no derived status restarts the ids at zero",
 		"R18f a new namespace gets a shard for every generated range (open finding F19: a failed ensemble selection skips the shard but still creates the namespace)",
@@ -38,6 +39,7 @@ func checkC18(c *chk.Ctx) {
 	ruleR18f(h)
 	ruleR18g(h)
 	ruleStatusSwapFresh(h, "R18h")
+	ruleR18i(h)
 }
 
 func ruleR18a(h *H) {
@@ -638,4 +640,76 @@ func rangeBaseKey(v ssa.Value) string {
 		return "param:" + x.Name()
 	}
 	return fmt.Sprintf("%p", c)
+}
+
+// ruleR18i: the client replaces known shards by newly announced ones. A new shard can cover
+// several known shards (a namespace re-created with fewer shards, a merge), so the scan
+// that evicts overlapping entries must visit every known shard: leaving it after the first
+// eviction keeps overlapping ranges (a key then matches two shards, one of them stale).
+func ruleR18i(h *H) {
+	const rule = "R18i"
+	h.Rule(rule, "K1", "in the client's shard manager the loop that deletes overlapping known shards is only left at its header (when the known shards are exhausted)", 1)
+	n := 0
+	for _, fn := range h.P.Funcs {
+		if ir.RelPkg(ir.PkgPathOf(fn)) != "oxia/internal" {
+			continue
+		}
+		ir.Instrs(fn, func(in ssa.Instruction) {
+			c := ir.CallOf(in)
+			if c == nil {
+				return
+			}
+			b, ok := c.Value.(*ssa.Builtin)
+			if !ok || b.Name() != "delete" {
+				return
+			}
+			mt, ok := c.Args[0].Type().Underlying().(*types.Map)
+			if !ok || !ir.TypeIs(mt.Elem(), "oxia/internal", "Shard") {
+				return
+			}
+			// the scan: a range loop over a map of shards whose header dominates the delete
+			var header *ssa.BasicBlock
+			ir.Instrs(fn, func(x ssa.Instruction) {
+				nx, ok := x.(*ssa.Next)
+				if !ok {
+					return
+				}
+				rg, ok := nx.Iter.(*ssa.Range)
+				if !ok {
+					return
+				}
+				rmt, ok := rg.X.Type().Underlying().(*types.Map)
+				if !ok || !ir.TypeIs(rmt.Elem(), "oxia/internal", "Shard") {
+					return
+				}
+				if nx.Block().Dominates(in.Block()) {
+					header = nx.Block()
+				}
+			})
+			if header == nil {
+				return
+			}
+			n++
+			h.Fn(ir.FuncName(fn))
+			loop := ir.LoopBlocks(header)
+			bad := ""
+			if !loop[in.Block()] {
+				bad = "after evicting one overlapping shard the scan over the known shards is not continued (break): further known shards that overlap the new one stay in the map"
+			}
+			for blk := range loop {
+				if blk == header {
+					continue
+				}
+				for _, s := range blk.Succs {
+					if !loop[s] {
+						bad = fmt.Sprintf("the scan over the known shards can be left from its body (block b%d, e.g. a break after the first eviction): further known shards that overlap the new one stay in the map", blk.Index)
+					}
+				}
+			}
+			h.Verdict(bad == "", rule, fmt.Sprintf("overlap eviction #%d in %s", n, ir.FuncName(fn)), h.pos(in), "the scan runs until the known shards are exhausted", bad)
+		})
+	}
+	if n == 0 {
+		h.Anchor(rule, "delete of an overlapping shard from the client's shard map inside a loop")
+	}
 }
